@@ -26,7 +26,8 @@ class C08:
             "steps and gaps. Oracle: for each feedback, the stream recorded at the reader port equals [(start, initial)] ++ [(t+MIN_TD, v) for each "
             "(t, v) recorded at the bound producer port] restricted to the window (no loss, duplicate, reorder, same-cycle observation); a loop closed "
             "only through passive readers is quiescent one MIN_TD after its last external input; the whole run equals the reference interpreter. "
-            "non-trivial = at least 2 deliveries; distinct = distinct (shape, delivery times)")
+            "non-trivial = at least 2 deliveries; distinct = distinct (shape, delivery times)"
+            " Round 3: in 35% of the collection cases the written port is an if_then_else over two set/dictionary writers (a re-point writes the difference old -> new).")
     assumptions = ["a quarter of the cases are feedback edges of TSS / TSD / TSB / TS shape with scripted writers: there the reader's per-tick delta stream is compared with the writer's, one MIN_TD later",
                    "ticks whose structural delta is empty are excluded from that comparison (known finding F5, owned by C20)"]
 
